@@ -2,7 +2,7 @@
  * the transition function that the documented syntax defines.  Every state variable has its own next-state clause, so the
  * contract is a complete description of the step; the output clauses say which bytes each construct appends.
  *
- *   text position `in` (inside the NUL-terminated text [g_text, g_text + g_n], in[0] != 0 on entry = the loop condition)
+ *   text position `in`: g_n >= 1 characters remain, in[g_n] == 0 is the terminator, in[0] != 0 on entry (= the loop condition)
  *   C0 = in[0], C1 = in[1] (C1 is only meaningful because C0 != 0), C2/C3 = in[2]/in[3] when the preceding characters are not NUL
  */
 #ifndef C09_STEP_H
@@ -17,7 +17,7 @@ extern bool big_endian, mask_enabled, allow_files;
 extern vstr* data; extern vstr* mask; extern vstr filename;
 
 /* ghosts fixed by the preconditions */
-extern const char* g_text; extern size_t g_n;       /* the text and its length: g_text[g_n] == 0 */
+extern size_t g_n;                                  /* remaining text: in[g_n] == 0 is the terminator (g_end) */
 extern char g_c0, g_c1, g_c2, g_c3;                 /* the characters at in[0..3] (0 after the first NUL) */
 extern size_t g_j;                                  /* ghost index into the bytes appended by this step */
 extern uint8_t g_vval;                              /* value of data byte g_vk before the step (frame) */
@@ -81,10 +81,9 @@ extern uint8_t g_vval;                              /* value of data byte g_vk b
 
 void pds_step(void)
 /* the text, the position, the look-ahead ghosts */
-__CPROVER_requires(g_n <= PDS_MAXTEXT)
-__CPROVER_requires(__CPROVER_is_fresh(g_text, g_n + 1))
-__CPROVER_requires(g_text[g_n] == 0 && g_end == g_text + g_n)
-__CPROVER_requires(__CPROVER_same_object(in, g_text) && __CPROVER_POINTER_OFFSET(in) < g_n)
+__CPROVER_requires(g_n >= 1 && g_n <= PDS_MAXTEXT)
+__CPROVER_requires(__CPROVER_is_fresh(in, g_n + 1))
+__CPROVER_requires(in[g_n] == 0 && g_end == in + g_n)
 __CPROVER_requires(g_c0 == in[0] && g_c0 != 0 && g_c1 == in[1])
 __CPROVER_requires(g_c2 == (g_c1 == 0 ? 0 : in[2]))
 __CPROVER_requires(g_c3 == (g_c2 == 0 ? 0 : in[3]))
@@ -113,7 +112,7 @@ __CPROVER_ensures(reading_high_nybble == (O(reading_high_nybble) != (M_N && IS_H
 __CPROVER_ensures(chr == ((M_N && IS_HEX(C0)) ? (O(reading_high_nybble) ? HEXVAL(C0) << 4 : 0) : O(chr)))
 __CPROVER_ensures(g_returned == (M_STR && C0 == '\\' && C1 == 0))                  /* a backslash at the very end stops the parser */
 /* ---- position: stays inside the text, moves forward (except on the stop above) ------------------------------------ */
-__CPROVER_ensures(__CPROVER_same_object(in, g_text) && __CPROVER_POINTER_OFFSET(in) <= g_n)
+__CPROVER_ensures(__CPROVER_same_object(in, g_end) && __CPROVER_POINTER_OFFSET(in) <= __CPROVER_POINTER_OFFSET(g_end))
 __CPROVER_ensures(!IS_NUM ==> (in == O(in) + ADV && g_st_calls == 0))
 __CPROVER_ensures(IS_NUM ==> (g_st_calls == 1 && g_st_arg == O(in) + (C0 == '#' ? NHASH : NPCT) && in == g_st_end))
 __CPROVER_ensures(IS_NUM ==> (g_st_kind == (C0 == '#' ? 1 : C1 == '%' ? 2 : 3) && (C0 == '#' ==> g_st_base == 0)))
